@@ -513,6 +513,11 @@ func (inst *InstCall) Operands() []*value.Value {
 	for i := range inst.Args {
 		ops = append(ops, &inst.Args[i])
 	}
+	for _, bundle := range inst.OperandBundles {
+		for i := range bundle.Inputs {
+			ops = append(ops, &bundle.Inputs[i])
+		}
+	}
 	return ops
 }
 
